@@ -242,8 +242,56 @@ fn mnemonic(s: &str) -> Option<AsmMnemonic> {
 
 // Drive AssemblyCode directly: {"lines":[{"k":"i","mn":..,"op":..,"nb":..,"cy":..,"prot":..}|{"k":"l","name":..}|
 // {"k":"a","text":..,"nb":..}|{"k":"c","text":..}], "ops":["optimize","check_branches"]}
+fn asm_add_lines(c: &mut AssemblyCode, lines: &Value) {
+    for l in lines.as_array().unwrap() {
+        match l["k"].as_str().unwrap() {
+            "i" => c.append_asm(AsmInstruction {
+                mnemonic: mnemonic(l["mn"].as_str().unwrap()).expect("mnemonic"),
+                dasm_operand: l["op"].as_str().unwrap_or("").to_string(),
+                cycles: l["cy"].as_u64().unwrap_or(2) as u32,
+                cycles_alt: l["cya"].as_u64().map(|x| x as u32),
+                nb_bytes: l["nb"].as_u64().unwrap() as u32,
+                protected: l["prot"].as_bool().unwrap_or(false),
+            }),
+            "l" => c.append_label(l["name"].as_str().unwrap().to_string()),
+            "a" => c.append_inline(l["text"].as_str().unwrap().to_string(), l["nb"].as_u64().map(|x| x as u32)),
+            "c" => c.append_comment(l["text"].as_str().unwrap().to_string()),
+            _ => {
+                c.append_dummy();
+            }
+        }
+    }
+}
+
+// {"objs": [{"name": "f", "steps": [{"lines": [...]} | {"push": "f", "k": 1}]}, ...]}: code objects built in order, a push is what
+// generate_asm.rs push_code does (append_code + the .endofinline<k> label); the lines of the last object are returned
+fn asmapi_objs(case: &Value) -> Value {
+    let mut objs: std::collections::HashMap<String, AssemblyCode> = std::collections::HashMap::new();
+    let mut last = String::new();
+    for o in case["objs"].as_array().unwrap() {
+        let mut c = AssemblyCode::new();
+        for st in o["steps"].as_array().unwrap() {
+            if st["lines"].is_array() {
+                asm_add_lines(&mut c, &st["lines"]);
+            } else {
+                let callee = objs.get(st["push"].as_str().unwrap()).expect("object").clone();
+                let k = st["k"].as_u64().unwrap() as u32;
+                c.append_code(&callee, k);
+                c.append_label(format!(".endofinline{}", k));
+            }
+        }
+        last = o["name"].as_str().unwrap().to_string();
+        objs.insert(last.clone(), c);
+    }
+    let c = objs.get(&last).unwrap();
+    json!({"status": "ok", "size": c.size_bytes(), "lines": lines_json(c)})
+}
+
 fn asmapi_one(case: Value, deadline: u64) -> Value {
     with_deadline(deadline, move || {
+        if case["objs"].is_array() {
+            return asmapi_objs(&case);
+        }
         let mut c = AssemblyCode::new();
         for l in case["lines"].as_array().unwrap() {
             match l["k"].as_str().unwrap() {
